@@ -31,7 +31,7 @@ Items ==
   \cup { [k |-> "dq", s |-> c] : c \in {x \in Contents : DQOK(x)} }
   \cup { [k |-> "bq", s |-> c] : c \in {x \in Contents : BQOK(x)} }
   \cup { [k |-> o, s |-> <<>>] : o \in {"num", "var", "silentexpr", "silentstr", "let", "assign", "silentif", "silentfor", "comment", "silentraw", "silentcall", "fnout", "silentfn",
-                                       "escopen", "bslemit", "false", "zero", "emptystr", "nilv", "arrvar", "arrpair"} }
+                                       "escopen", "bslemit", "false", "zero", "emptystr", "nilv", "arrvar", "arrpair", "twoblk", "nestblk", "blkloop"} }
 
 \* the statement(s) an item stands for, and what it contributes to the output
 ItemStmts(it) ==
@@ -61,6 +61,13 @@ ItemStmts(it) ==
     \* an array value (every element is written, every time the array is emitted, also twice inside one array)
     [] it.k = "arrvar"     -> <<Emit(Id("ys"))>>
     [] it.k = "arrpair"    -> <<Emit(Arr(<<Id("ys"), Id("ys")>>))>>
+    \* several helper blocks rendered inside ONE enclosing block / loop / helper block: each keeps its own text until the
+    \* enclosing value is written
+    [] it.k = "twoblk"     -> <<Code(CallB("contentFor", <<Str(<<"c", "a">>)>>, <<Text(<<"A", "A", "A">>)>>)), Code(CallB("contentFor", <<Str(<<"c", "b">>)>>, <<Text(<<"B", "B">>)>>)),
+                                Emit(If(Bool(TRUE), <<Text(<<"[">>), Emit(Call("contentOf", <<Str(<<"c", "a">>)>>)), Text(<<"|">>), Emit(Call("contentOf", <<Str(<<"c", "b">>)>>)), Text(<<"]">>)>>))>>
+    [] it.k = "nestblk"    -> <<Emit(CallB("blk", <<>>, <<Emit(CallB("blk", <<>>, <<Text(<<"o", "n", "e">>)>>)), Text(<<" ">>), Emit(CallB("blk", <<>>, <<Text(<<"t", "w", "o">>)>>)), Text(<<" ">>),
+                                                          Emit(CallB("blk", <<>>, <<Text(<<"3">>)>>))>>))>>
+    [] it.k = "blkloop"    -> <<Emit(For("", "v", Arr(<<Str(<<"x">>), Str(<<"y", "y">>)>>), <<Text(<<"(">>), Emit(CallB("blk", <<>>, <<Emit(Id("v"))>>)), Text(<<")">>)>>))>>
     [] it.k = "fnout"      -> <<Emit(Call("pick", <<IntL(1)>>))>>
     [] it.k = "silentfn"   -> <<Code(Call("pick", <<IntL(1)>>))>>
 \* contribution according to the statement of C02 (w is "W" once an assign item has run)
@@ -76,6 +83,9 @@ ItemOut(it, assigned) ==
     [] it.k = "zero"  -> <<"0">>
     [] it.k = "arrvar" -> <<"x", "y">>
     [] it.k = "arrpair" -> <<"x", "y", "x", "y">>
+    [] it.k = "twoblk"  -> <<"[", "A", "A", "A", "|", "B", "B", "]">>
+    [] it.k = "nestblk" -> <<"o", "n", "e", " ", "t", "w", "o", " ", "3">>
+    [] it.k = "blkloop" -> <<"(", "x", ")", "(", "y", "y", ")">>
     [] OTHER -> <<>>
 
 Places == {"top", "if", "for", "fn", "blk"}
